@@ -14,7 +14,7 @@ if [ "$1" = "--sync" ]; then
 fi
 NAME=$1; shift
 PATCH=/verif/seeded/$NAME/patch.diff; [ -f /verif/seeded/$NAME/patch.rebased.diff ] && PATCH=/verif/seeded/$NAME/patch.rebased.diff
-git -C $VREPO checkout -- . ; git -C $VREPO apply $PATCH || { echo "seed=$NAME patch does not apply"; exit 2; }
+git -C $VREPO checkout -- . ; git -C $VREPO apply $PATCH 2>/dev/null || git -C $VREPO apply -3 $PATCH >/dev/null 2>&1 || { echo "seed=$NAME patch does not apply"; git -C $VREPO reset -q; git -C $VREPO checkout -- .; exit 2; }; git -C $VREPO reset -q
 for P in "$@"; do
   OUT=$(cd $SNAP && CARGO_TARGET_DIR=$SNAP-target VERIF_SEED=${VERIF_SEED:-1} ./bin/check $P quick 2>&1)
   CODE=$?
